@@ -380,7 +380,9 @@ ADD_TEXT["C18"] += (" Round 7: 'a monitor can affect nothing' is now a theorem o
                     "connection without rules; a monitor that speaks is a connection dropped for sending something unacceptable), and the states agree up to shading; "
                     "step_ignores_monitors is the one-step version, for every event (messages to the driver with all its methods including BecomeMonitor itself, peer traffic, connect, "
                     "disconnect, invalid bytes, expiry, stall, reload). reachable_monitor_is_inert: in every reachable state a monitor holds no match rule, stands in no queue and is "
-                    "neither caller nor callee of a pending reply.")
+                    "neither caller nor callee of a pending reply. Monitors together with service activation (outside the history theorem) are run model-against-daemon: "
+                    "three scripted scenarios (a caller whose call is held for a service turns into a monitor before the service arrives) and generated activation histories "
+                    "with BecomeMonitor calls.")
 ADD_TEXT["C04"] += (" Round 7: in every reachable state whoever stands in a queue is a connected connection and no monitor (queue_members_are_connected), a connection's services_owned list "
                    "covers every queue it stands in (owned_names_cover_queues) - so the disconnect path and BecomeMonitor, which walk that list, really take it out of every queue "
                    "(gone_connection_in_no_queue).")
